@@ -59,6 +59,7 @@ let handle mode op args =
   | "load", srcs -> out_bytes (dump_load_with d (prelude mode) (List.map bytes_of_hex srcs))
   | "val", rules :: q :: srcs ->
       out_bytes (dump_validate_with d (prelude mode) (bytes_of_hex rules) (bytes_of_hex q) (List.map bytes_of_hex srcs))
+  | "link", q :: srcs -> out_bytes (dump_link_with d (prelude mode) (bytes_of_hex q) (List.map bytes_of_hex srcs))
   | _ -> "BADOP"
 
 let () =
